@@ -199,7 +199,7 @@ def spec_range_end(features, decades=2):
     return [10.0 ** float(np.rint(x))]
 
 
-def mechanism(cs, ps, con, disc, dt, features):
+def mechanism(cs, ps, con, disc, dt, features, range_ends=None):
     """-> dict of features describing why the sampled count can differ from Z - P:
     sampling: 'ok' | 'aliased' (some step of the contour turns 1+L by pi or more: unwrap cannot follow)
     aliased_at: 'interior' | 'nyquist-gap' (only the final step of a discrete-time contour, from the end of the
@@ -227,7 +227,7 @@ def mechanism(cs, ps, con, disc, dt, features):
         out["max_step_over_pi"] = round(float(np.max(st)) / math.pi, 3)
     if not disc and len(cs) == len(ps):
         errs = []
-        for w in spec_range_end(features):
+        for w in (range_ends if range_ends else spec_range_end(features)):
             if any(a.real == 0 and a.imag >= w for a in cs + ps):
                 errs.append(math.inf)
             else:
